@@ -61,6 +61,11 @@ func (b *message) ReadUint32() (r uint32) {
 func (b *message) ReadString() (r string) {
 	end := b.offset
 	maximum := uint32(len(b.data))
+	if end >= maximum {
+		// nothing left to read (the previous string was not terminated)
+		b.offset = maximum
+		return ""
+	}
 	for ; end != maximum && b.data[end] != 0; end++ {
 	}
 	r = string(b.data[b.offset:end])
@@ -99,7 +104,14 @@ func (m *MatchPostgres) Match(cx *layer4.Connection) (bool, error) {
 	}
 
 	// Get actual message length
-	data := make([]byte, binary.BigEndian.Uint32(head)-initMessageSizeLength)
+	// The length covers itself and at least the protocol version (or request code),
+	// and a message that does not fit into the matching buffer can never be matched.
+	length := binary.BigEndian.Uint32(head)
+	if length < initMessageSizeLength+4 || length > layer4.MaxMatchingBytes {
+		return false, nil
+	}
+
+	data := make([]byte, length-initMessageSizeLength)
 	if _, err := io.ReadFull(cx, data); err != nil {
 		return false, err
 	}
